@@ -60,7 +60,22 @@ func shapes() []struct {
 		{"uint64-2^63", uint64(1) << 63}, {"uint32-max-in-slice", []uint32{math.MaxUint32, 0}}, {"int16-min", int16(math.MinInt16)},
 		{"float32-max", float32(math.MaxFloat32)}, {"float32-tenth", float32(0.1)}, {"slice-float32", []float32{0.1, math.MaxFloat32}}, {"float64-max", math.MaxFloat64}, {"float64-tiny", math.SmallestNonzeroFloat64},
 		{"float64-2^53+1", float64(1<<53) + 2}, {"negzero", math.Copysign(0, -1)},
+		// nil containers INSIDE elements of slices/arrays (a nil is JSON null on the wire: either refused at the issuer or carried faithfully)
+		{"slice-struct-nilfields", []item{{Name: "b"}}}, {"array-map-nil", [2]map[string]int{nil, {"a": 1}}},
+		{"slice-array-nilslice", [][1][]int{{nil}}}, {"struct-slice-struct-nilmap", box{Items: []item{{Name: "c", Tags: []string{"t"}}}}},
+		{"slice-struct-full", []item{{Name: "d", Tags: []string{}, M: map[string]int{}}}}, {"slice-pstruct-nilfield", []*item{{Name: "e"}}},
+		{"map-slice-struct-nil", map[string][]item{"k": {{Name: "f"}}}},
 	}
+}
+
+type item struct {
+	Name string
+	Tags []string
+	M    map[string]int
+}
+
+type box struct {
+	Items []item
 }
 
 type counts struct {
